@@ -53,7 +53,7 @@ pub (crate) fn bid128_scalbn(x: &BID_UINT128, n: i32, rnd_mode: RoundingMode, pf
     }
     // check for overflow
     if exp64 > DECIMAL_MAX_EXPON_128 as i64 {
-      if CX.w[1] < 0x314dc6448d93u64 {
+      if CX.w[1] < 0x314dc6448d93u64 || (CX.w[1] == 0x314dc6448d93u64 && CX.w[0] < 0x38c15b0a00000000u64) {
         // try to normalize coefficient
         loop {
           CBID_X8.w[1] = (CX.w[1] << 3) | (CX.w[0] >> 61);
@@ -65,7 +65,7 @@ pub (crate) fn bid128_scalbn(x: &BID_UINT128, n: i32, rnd_mode: RoundingMode, pf
           exponent_x -= 1;
           exp64      -= 1;
 
-          if !(CX.w[1] < 0x314dc6448d93u64 && exp64 > DECIMAL_MAX_EXPON_128 as i64) {
+          if !((CX.w[1] < 0x314dc6448d93u64 || (CX.w[1] == 0x314dc6448d93u64 && CX.w[0] < 0x38c15b0a00000000u64)) && exp64 > DECIMAL_MAX_EXPON_128 as i64) {
             break;
           }
         }
